@@ -185,10 +185,26 @@ def generate():
         # q = self.call(x[0]); p = not ((is_number(q) and q == 0) or is_empty(q)); return call(x[1]) if p else call(x[2])
         if len(body) != 3:
             raise ShapeError("KGCond branch: expected three statements")
-        ok = (ast.unparse(body[0]) == "q = self.call(x[0])" and
-              ast.unparse(body[1]) == "p = not (self._backend.is_number(q) and q == 0 or is_empty(q))" and
-              ast.unparse(body[2]) == "return self.call(x[1]) if p else self.call(x[2])")
-        return ok
+        if not (ast.unparse(body[0]) == "q = self.call(x[0])" and
+                ast.unparse(body[2]) == "return self.call(x[1]) if p else self.call(x[2])"):
+            return False
+        test = ast.unparse(body[1])
+        if test == "p = not (self._backend.is_number(q) and q == 0 or is_empty(q))":
+            return True          # the test written inline (pinned tree)
+        if test != "p = kg_is_true(q, self._backend)":
+            return False
+        # the test lives in types.kg_is_true (cf601c6): pin its body as well, and that no other kg_is_true shadows it
+        tm = astlib.module("klongpy/types.py")
+        kt = astlib.find_func(tm, "kg_is_true")
+        kb = astlib.body_no_doc(kt)
+        if [a.arg for a in kt.args.args] != ["q", "backend"] or len(kb) != 1 or not isinstance(kb[0], ast.Return):
+            return False
+        if ast.unparse(kb[0]) != "return not (backend.is_number(q) and q == 0 or is_empty(q))":
+            return False
+        for n in m.body:
+            if isinstance(n, (ast.FunctionDef, ast.Assign)) and "kg_is_true" in ast.unparse(n).split("(")[0]:
+                return False
+        return True
     tf, why = astlib.try_flag(truth_flag)
     out.append("Definition cond_zero_test_is_exact : bool := %s.%s" % (
         astlib.coq_bool(bool(tf)), "" if why is None else "  (* shape not recognised: %s *)" % why))
